@@ -53,10 +53,10 @@ EffFmt(p, o, f) == LET r == RawFmt(p, f) IN
 Force == "f" \in flags
 HasDash == \E i \in 1..Len(files) : files[i].kind = "dash"
 
-(* "-" is an operand only together with -c (or a cat personality); at most one *)
+(* "-" reads standard input and writes standard output whatever the flags; at most one *)
 AddFile == /\ phase = "files" /\ Len(files) < MaxFiles
            /\ \E kd \in Kinds, ct \in Contents :
-                /\ (kd = "dash" => ~HasDash /\ ("c" \in flags \/ PersStdout(pers)))
+                /\ (kd = "dash" => ~HasDash)
                 /\ files' = Append(files, [kind |-> kd, content |-> ct])
            /\ UNCHANGED <<pers, op, info, fmt, flags, stdin, phase, usage>>
 Finish == phase = "files" /\ phase' = "done" /\ UNCHANGED <<pers, op, info, fmt, flags, files, stdin, usage>>
@@ -91,7 +91,7 @@ Outcome(f) ==
   ELSE LET ct == IF f.kind = "dash" THEN stdin ELSE f.content
            t == Transform(ct) IN
        IF ~t.ok THEN Fail
-       ELSE IF Stdout THEN [ok |-> TRUE, out |-> "stdout", target |-> "none", fmt |-> t.fmt, removeInput |-> FALSE]
+       ELSE IF Stdout \/ f.kind = "dash" THEN [ok |-> TRUE, out |-> "stdout", target |-> "none", fmt |-> t.fmt, removeInput |-> FALSE]
        ELSE IF ~D /\ ContentFormat(ct) = F THEN Fail          \* compressing a name that already carries the suffix
        ELSE [ok |-> TRUE, out |-> "file", target |-> IF D THEN "strip" ELSE "append", fmt |-> t.fmt, removeInput |-> ~Keep]
 
